@@ -544,3 +544,48 @@ impl ExprGen {
         }
     }
 }
+
+// ---------------------------------------------------------------------------
+// DTD-defaulted attributes
+
+/// Gives one element type of the tree an attribute `dv` that is declared with a default value in an internal
+/// subset: some of the elements write it (with another value), the others get it by default. Returns the document
+/// text (with DOCTYPE), the reference tree (every such element has the attribute) and the number of defaulted ones.
+pub fn with_defaults(tree: &XTree, rng: &mut Rng) -> Option<(String, XTree, usize)> {
+    use vp_xref::tree::Kind;
+    let elems: Vec<usize> = (0..tree.nodes.len()).filter(|&i| tree.nodes[i].kind == Kind::Element).collect();
+    if elems.is_empty() {
+        return None;
+    }
+    let qname = tree.name(*rng.pick(&elems));
+    let default = *rng.pick(&["d", "1", "2", "a b", "x"]);
+    let text = vp_xref::to_xml(tree);
+    let root = tree.name(tree.document_element()?);
+    let needle = format!("<{}", qname);
+    let mut full = String::new();
+    let mut doc = String::new();
+    let mut rest = text.as_str();
+    let mut defaulted = 0usize;
+    while let Some(i) = rest.find(&needle) {
+        let after = &rest[i + needle.len()..];
+        let boundary = after.chars().next().map(|c| c == ' ' || c == '>' || c == '/').unwrap_or(false);
+        full.push_str(&rest[..i + needle.len()]);
+        doc.push_str(&rest[..i + needle.len()]);
+        if boundary {
+            if rng.pct(35) {
+                let v = *rng.pick(&["w", "3", "d"]);
+                full.push_str(&format!(" dv=\"{}\"", v));
+                doc.push_str(&format!(" dv=\"{}\"", v));
+            } else {
+                full.push_str(&format!(" dv=\"{}\"", default));
+                defaulted += 1;
+            }
+        }
+        rest = after;
+    }
+    full.push_str(rest);
+    doc.push_str(rest);
+    let reference = vp_xref::tree::from_xml(&full).ok()?;
+    let doc = format!("<!DOCTYPE {} [<!ATTLIST {} dv CDATA \"{}\">]>{}", root, qname, default, doc);
+    Some((doc, reference, defaulted))
+}
